@@ -60,6 +60,15 @@ SEEDS = {
     "c08-4": ("C08", "breadth-first run, group >= 2, a member that stops early placed before a member that runs longer", ["C08"]),
     "c09-4": ("C09", "a member csvpath printing to two or more printer streams (printouts.txt keeps only the last stream's lines)", ["C09"]),
     "c10-4": ("C10", "reused instance: fast_forward_paths immediately followed by collect_paths (run directory path cached across runs)", ["C10"]),
+    "c11-4": ("C11", "add(c1), add(c1), add(c2) under one name from the same source file name (stale landing copy skips the third copy-in)", ["C11"]),
+    "c12-4": ("C12", "one instance: add list X, remove the name, add the byte-identical X again (stale fingerprint cache: no manifest entry)", ["C12"]),
+    "c13-4": ("C13", "stop() in a non-final position firing on a line that no earlier component declined (the stop line is returned)", ["C13"]),
+    "c14-4": ("C14", "onmatch and notnone together with nocontrib or latch, y absent, rest of the line matching", ["C14"]),
+    "c15-4": ("C15", "return-mode: no-matches with a match part that depends on the running match count (lt(count(), 3))", ["C15"]),
+    "c16-4": ("C16", "a header whose NAME is all digits (not a valid index) referenced by name in a print string", ["C16"]),
+    "c17-4": ("C17", "an integer literal with 16 or more digits (not exactly representable as a double)", ["C17"]),
+    "c18-4": ("C18", "breadth-first method + raise policy abort on the FINAL line of the aborting member's scan (completed: true)", ["C18"]),
+    "c20-4": ("C20", "$group.headers.h.member into a group of >= 2 members one of which collected zero lines", ["C20"]),
     "c02-1": ("C02", "lone reversed range whose low bound is 0 ([3-0]) with record 0 non-blank and a later non-blank record in range", ["C02"]),
     "c03-1": ("C03", "first() on a value first seen on line 0 that re-appears later; scan must include line 0", ["C03"]),
     "c05-1": ("C05", "validation-mode whose FIRST token is no-stop, a non-raising error, and at least one more line after it", ["C05"]),
